@@ -121,31 +121,72 @@ def register(T, repo):
                      lambda n: And(zint(n) >= 1, zint(n) <= 2), 'errtoks',
                      fresh=True)
 
+    class ErrListS(Spec):
+        """result of latex_error: one token, optionally followed by a
+        second one"""
+        def __init__(self, A):
+            self.A = A
+            self.inner = le_result(A)
+
+        def make(self, ex, st):
+            ts = self.inner.elem
+            t0 = ts.make(ex, st)
+            t1 = ts.make(ex, st)
+            two = sym.fresh_bool('two_pieces')
+            m = Many(Ite(two, 1, 0), (lambda s1, t1=t1: t1), True, 'opt01')
+            return TokList([Single(t0), m])
+
+        def check(self, ex, st, v, label, line=0):
+            self.inner.check(ex, st, v, label, line)
+
+    def pieces(A, r):
+        """concatenated text of the pieces of a latex_error result"""
+        st = A['$st']
+        txt = ''
+        for sg in r.segs:
+            if isinstance(sg, Single):
+                piece = sg.obj.fields['txt']
+            else:
+                e = sg.mk(st)
+                t = lift_str(e.fields['txt'])
+                piece = SSeq(t.arr, Ite(zint(sg.ln) == 1, t.ln, 0), 'str')
+            txt = sym.seq_concat(txt, piece)
+        return lift_str(txt)
+
     def le_first_at_pos(A, r):
         ex, st = A['$ex'], A['$st']
         t0 = ex.list_get(r, 0, st, 0, check=False)
         return zint(t0.fields['pos']) == zint(A['pos'])
 
     def le_mark_complete(A, r):
-        """concatenated text of the pieces == the complete mark, and the
-        mark starts with ' ' + parms.mark_latex_error + ' '"""
-        ex, st = A['$ex'], A['$st']
+        """concatenated text of the pieces == the complete mark, which
+        starts with ' ' + parms.mark_latex_error + ' ' (C08)"""
         mark = lift_str(A['parms'].fields['mark_latex_error'])
-        n = r.length()
-        if not all(isinstance(s, Single) for s in r.segs):
-            # call side: stated through the ghost total length
+        if not all(isinstance(s, Single) or s.label == 'opt01'
+                   for s in r.segs):
             return True
-        txt = ''
-        for s in r.segs:
-            txt = sym.seq_concat(txt, s.obj.fields['txt'])
-        txt = lift_str(txt)
-        head = sym.seq_concat(sym.seq_concat(' ', mark), ' ')
-        head = lift_str(head)
+        txt = pieces(A, r)
+        head = lift_str(sym.seq_concat(sym.seq_concat(' ', mark), ' '))
         verbose = zbool(A['parms'].fields['mark_latex_error_verbose'])
         return And(
             zint(txt.ln) >= zint(head.ln),
             forall(0, head.ln, lambda k: txt.at(k) == head.at(k)),
             Implies(Not(verbose), zint(txt.ln) == zint(head.ln)))
+
+    def le_linecol(A, r):
+        """the diagnostic names the 1-based line and column of pos (C08)"""
+        L = A.get('$locals')
+        if L is None:
+            return True
+        latex = lift_str(A['latex'])
+        pos = zint(A['pos'])
+        lin, nl, col = zint(L['lin']), zint(L['nl']), zint(L['col'])
+        return Implies(And(0 <= pos, pos <= zint(latex.ln)), And(
+            lin >= 1, col >= 1, 0 <= nl, nl <= pos, col == pos - nl + 1,
+            forall(nl, pos, lambda k: latex.at(k) != 10),
+            Or(nl == 0, latex.at(nl - 1) == 10),
+            (lin == 1) == zbool(forall(0, pos,
+                                       lambda k: latex.at(k) != 10))))
 
     def le_diag(A, r):
         st = A['$st']
@@ -157,11 +198,22 @@ def register(T, repo):
         U + 'latex_error',
         params={'err': StrS(name='err'), 'pos': IntS(name='pos'),
                 'latex': StrS(name='latex'), 'parms': ParmsErrS()},
-        result=le_result,
+        result=lambda A: ErrListS(A),
         ensures=[('first-at-pos', le_first_at_pos),
-                 ('mark-complete', le_mark_complete)],
+                 ('mark-complete', le_mark_complete),
+                 ('line-column', le_linecol)],
         effects=lambda ex, st, A: st.ghost.__setitem__(
             '$diag', st.ghost.get('$diag', 0) + 1)))
+
+    # C08 mark-complete at call sites: taking one element of a latex_error
+    # result drops the second piece of the mark
+    def list_index_hook(ex, st, lst, i, line):
+        if any(isinstance(sg, Many) and sg.label == 'opt01'
+               for sg in lst.segs) and len(lst.segs) == 2:
+            ex.prove(st, 'mark-complete:index@%d' % line,
+                     zint(lst.length()) == 1, line,
+                     note='only one piece of a two-piece error mark is used')
+    T.list_index_hook = list_index_hook
 
     # --------------------------------------------------------- substitute
     def sub_pre(A):
